@@ -332,6 +332,33 @@ func runC13(c *core.Ctx) {
 	}
 	c.Floor("pure.fresh", 2)
 
+	// ---- pure.copy: the contract the rules above rely on. Every Copy method of a value kind hands out a new struct on
+	// every return path - never the receiver: arguments are passed by value through Copy, and a Copy that returns the
+	// receiver for some values binds the callee's parameter to the caller's variable.
+	for _, fn := range prog.ModuleFuncs("interpreter/value") {
+		if fn.Name() != "Copy" || fn.Signature.Recv() == nil || !strings.HasPrefix(core.NamedTypePkgName(fn.Signature.Recv().Type()), valuePkg+".") {
+			continue
+		}
+		key := core.FnName(fn)
+		bad := false
+		if st, isSt := derefType(fn.Signature.Recv().Type()).Underlying().(*types.Struct); isSt && st.NumFields() == 0 {
+			c.Discharge("pure.copy", key, fn.Pos(), "a struct without fields (the Null sentinel): nothing can be changed through it")
+			continue
+		}
+		for _, rs := range core.ReturnSites(fn) {
+			for _, r := range rs.Results {
+				if !p.fresh(r, map[ssa.Value]bool{}) {
+					bad = true
+					c.Report("pure.copy", key, rs.Ret.Pos(), fmt.Sprintf("%s returns a value that is not a new struct on every path (%s): a BACKEND / STRING / … argument copied with it is the caller's own value, and an assignment to the parameter inside the subroutine changes the caller's variable", core.FnName(fn), describeValue(r)))
+				}
+			}
+		}
+		if !bad {
+			c.Discharge("pure.copy", key, fn.Pos(), "every return hands out a new struct")
+		}
+	}
+	c.Floor("pure.copy", 8)
+
 	// ---- pure.frame
 	for _, name := range []string{"Interpreter.ProcessSubroutine", "Interpreter.ProcessFunctionSubroutine"} {
 		fn := prog.SSAFunc("interpreter", name)
